@@ -139,12 +139,12 @@ RepTable == TLCEval([U \in Units |->
                  kp \in {<<"coded", 0>>, <<"coded", 3>>, <<"coded", 60>>, <<"dtx", 0>>, <<"toc", 0>>}}])
 
 \* the envelope under the settings in force: representatives that fit and honour them (EncCtl!EncodeHonours)
-Env(U, mb, sig) ==
-  {r \in RepTable[U] :
-     /\ r.len <= mb
-     /\ r.pad = (IF xS.vbr = 0 /\ r.kind = "coded" THEN mb ELSE 0)
-     /\ r.kind = "dtx" => (sig = "silence" /\ xS.dtx = 1)
-     /\ E!EncodeHonours(xS, xG, U * Q(xS.Fs), r.attr[xS.Fs])}
+InEnv(r, U, mb, sig) ==
+  /\ r.len <= mb
+  /\ r.pad = (IF xS.vbr = 0 /\ r.kind = "coded" THEN mb ELSE 0)
+  /\ r.kind = "dtx" => (sig = "silence" /\ xS.dtx = 1)
+HonoursRep(r, U) == E!EncodeHonours(xS, xG, U * Q(xS.Fs), r.attr[xS.Fs])
+Env(U, mb, sig) == {r \in RepTable[U] : InEnv(r, U, mb, sig) /\ HonoursRep(r, U)}
 
 \* the frame_size argument for U units under the duration setting: with a fixed duration the call
 \* consumes that duration (if the argument is long enough); the model submits exactly what is consumed
@@ -155,7 +155,8 @@ UnitsConsumed(U) == IF xS.frameDuration = E!FRAMESIZE_ARG THEN U
 \* packet alone, so the action ranges over the packets some (budget, signal) class admits and records
 \* the smallest such budget
 MbSet == {1, 2, 3, 60}
-Admits(U, r) == {mb \in MbSet : ~(mb = 1 /\ U = 40) /\ \E sig \in {"silence", "loud"} : r \in Env(U, mb, sig)}
+Admits(U, r) == IF ~HonoursRep(r, U) THEN {}
+                ELSE {mb \in MbSet : ~(mb = 1 /\ U = 40) /\ \E sig \in {"silence", "loud"} : InEnv(r, U, mb, sig)}
 Encode ==
   /\ xn < MaxSteps
   /\ \E U0 \in Durs :
@@ -203,7 +204,7 @@ DurClasses == {"short", "10", "20", "40-60", "80-120"}
 BudClasses == {"tiny", "edge", "mid", "big"}
 G02Init == xst = [k |-> "gen"] /\ xn = 0 /\ xS = None /\ xG = None /\ xd = None /\ xhist = <<>>
 G02Next == /\ xn < MaxSteps
-           /\ \/ \E c \in CtlClasses : /\ (xhist = <<>> \/ xhist[Len(xhist)] # <<"C", c>>) /\ xn + 1 < MaxSteps
+           /\ \/ \E c \in CtlClasses : /\ (IF xhist = <<>> THEN TRUE ELSE xhist[Len(xhist)] # <<"C", c>>) /\ xn + 1 < MaxSteps
                                       /\ xhist' = Append(xhist, <<"C", c>>)
               \/ \E dc \in DurClasses, bc \in BudClasses : xhist' = Append(xhist, <<"E", dc, bc>>)
            /\ xn' = xn + 1 /\ UNCHANGED <<xst, xS, xG, xd>>
@@ -243,6 +244,7 @@ Apply(ds, cs, kind, U) ==
                       fecok |-> x.fecok /\ (res.out = "fec" => (c.t = "F" /\ TocMode(StreamPacket(kind, U, c.i).hdr[1]) # MODE_CELT
                                                                  /\ c.u >= Cut(TocMode(StreamPacket(kind, U, c.i).hdr[1]), U)[2] /\ x.d.mode # MODE_CELT))
                                        /\ (FecPossible(x.d, IF c.i >= 0 THEN StreamPacket(kind, U, c.i) ELSE [hdr |-> <<>>, len |-> 0, fill |-> 0], c) => res.out = "fec"),
+                      used |-> x.used \/ res.out = "fec",
                       units |-> x.units + CallUnits(c, U),
                       tok |-> IF c.t = "D" \/ (c.t = "X" /\ StreamPacket(kind, U, c.i).len > 2) THEN TokOf(kind, U, c.i)
                               ELSE IF c.t = "F" /\ res.out = "fec" THEN FecTok ELSE 0] : y \in res.nexts}
@@ -252,14 +254,14 @@ C09Init == /\ xn = 0 /\ xS = None /\ xG = None /\ xhist = <<>>
            /\ \E pol \in Pols, U \in Durs, kind \in Kinds :
                 /\ KindOK(kind, U) /\ (pol = "DX" <=> kind = "dtx")
                 /\ xst = [k |-> "rx", pol |-> pol, U |-> U, kind |-> kind, owed |-> 0, pos |-> 0, tok |-> 0, ended |-> FALSE,
-                         ok |-> TRUE, fecok |-> TRUE, calls |-> <<>>]
+                         ok |-> TRUE, fecok |-> TRUE, used |-> FALSE, calls |-> <<>>]
            /\ \E fo \in {8000, 48000} : xd = D!DecInit(fo, 1)
 
 Step(r, owed2, calls) ==
   /\ xd' = r.d
-  /\ xst' = [xst EXCEPT !.owed = owed2, !.pos = xst.pos + r.units, !.tok = r.tok, !.ok = r.ok, !.fecok = r.fecok, !.calls = calls]
+  /\ xst' = [xst EXCEPT !.owed = owed2, !.pos = xst.pos + r.units, !.tok = r.tok, !.ok = r.ok, !.fecok = r.fecok, !.used = r.used, !.calls = calls]
 
-Start(x) == {[d |-> x, ok |-> TRUE, fecok |-> TRUE, units |-> 0, tok |-> xst.tok]}
+Start(x) == {[d |-> x, ok |-> xst.ok, fecok |-> xst.fecok, used |-> xst.used, units |-> 0, tok |-> xst.tok]}
 
 Deliver == /\ xn < K /\ ~xst.ended
            /\ LET o == OnDeliver(xst.pol, xst.owed, xn, xst.U) IN
@@ -273,7 +275,7 @@ EndOfStream == /\ xn = K /\ ~xst.ended
                /\ LET o == OnEnd(xst.pol, xst.owed, xst.U) IN
                   \E r \in Apply(Start(xd), o[1], xst.kind, xst.U) :
                      /\ xd' = r.d
-                     /\ xst' = [xst EXCEPT !.owed = 0, !.pos = xst.pos + r.units, !.tok = r.tok, !.ok = r.ok, !.fecok = r.fecok,
+                     /\ xst' = [xst EXCEPT !.owed = 0, !.pos = xst.pos + r.units, !.tok = r.tok, !.ok = r.ok, !.fecok = r.fecok, !.used = r.used,
                                          !.calls = o[1], !.ended = TRUE]
                /\ UNCHANGED <<xn, xS, xG, xhist>>
 Done == xst.ended /\ UNCHANGED vars        \* the only state without a real successor
@@ -295,7 +297,7 @@ GoodPacketsUnaffected == (xn > 0 /\ ~xst.ended /\ ~xhist[xn]) => xst.tok = TokOf
 ScheduleAgrees == xst.ended => LET s == FullSchedule(xst.pol, xhist, 0, xst.U) IN ScheduleUnits(s, xst.U) = K * xst.U
 C09TypeOK == D!DecTypeOK(xd)
 \* vacuity guards (must be VIOLATED): in-band FEC data is really used somewhere; a two-packet FEC call happens
-SomeFecUsed == ~(xst.tok = FecTok)
+SomeFecUsed == ~xst.used
 SomeDoubleFec == ~(\E j \in 1..Len(xst.calls) : xst.calls[j].t = "F" /\ xst.calls[j].u = 2 * xst.U)
 
 -----------------------------------------------------------------------------
@@ -316,4 +318,21 @@ RECURSIVE Bits(_)
 Bits(f) == IF f = <<>> THEN "" ELSE B2S(Head(f)) \o Bits(Tail(f))
 EmitG09 == (xn = K) => \A U \in Durs, pol \in Pols :
               PrintT("SCHED " \o pol \o " " \o ToString(U) \o " " \o Bits(xhist) \o " | " \o Toks(FullSchedule(pol, Five \o xhist, 0, U)))
+
+\* long bursts (up to 10 s): the schedule in closed form - prefix, a group of calls repeated, suffix -
+\* proved equal to FullSchedule for short bursts (BurstFormOK), printed for the long ones
+BurstPols == {"PW", "PSa", "PSc", "F1", "F2"}
+BurstGroup(pol, U) == IF pol \in {"F1", "F2"} THEN <<CallP(U)>> ELSE ConcealCalls(pol, U)
+BurstReps(pol, L) == IF pol = "F1" THEN L - 1 ELSE IF pol = "F2" THEN L - 2 ELSE L
+BurstSuffix(pol, L, U) == (IF pol = "F1" THEN <<CallF(5 + L, U)>> ELSE IF pol = "F2" THEN <<CallF(5 + L, 2 * U)>> ELSE <<>>) \o <<CallD(5 + L)>>
+BurstPrefix == <<CallD(0), CallD(1), CallD(2), CallD(3), CallD(4)>>
+RECURSIVE RepSeq(_, _)
+RepSeq(g, k) == IF k <= 0 THEN <<>> ELSE g \o RepSeq(g, k - 1)
+BurstFormOK == \A pol \in BurstPols \cap Pols, U \in Durs, L \in 2..8 :
+                 BurstPrefix \o RepSeq(BurstGroup(pol, U), BurstReps(pol, L)) \o BurstSuffix(pol, L, U)
+                   = FullSchedule(pol, Five \o [j \in 1..L |-> TRUE] \o <<FALSE>>, 0, U)
+EmitBursts == (xn = 0) => \A pol \in BurstPols \cap Pols, U \in Durs, ms \in {400, 500, 1000, 3000, 10000} :
+                 LET L == (ms * 2) \div (5 * U) IN
+                 L < 2 \/ PrintT("BURST " \o pol \o " " \o ToString(U) \o " " \o ToString(L) \o " | " \o Toks(BurstPrefix) \o "| "
+                                 \o Toks(BurstGroup(pol, U)) \o "| " \o ToString(BurstReps(pol, L)) \o " | " \o Toks(BurstSuffix(pol, L, U)))
 =============================================================================
